@@ -227,10 +227,19 @@ class Ref:
         self.drop(join(path, name))
         return 0
 
+    @staticmethod
+    def sorted_on_read(plabel, label):
+        """cgi_read_base orders the zones and the particle zones of a base by name (strcmp)"""
+        return plabel == "CGNSBase_t" and label in ("Zone_t", "ParticleZone_t")
+
+    def read_order(self, nd, label):
+        names = [n for n in nd["file"] if nd["names"][n][0] == label]
+        return sorted(names, key=lambda x: x.encode()) if self.sorted_on_read(nd["label"], label) else names
+
     def reopen(self):
         for nd in self.nodes.values():
             for label in nd["slots"]:
-                nd["slots"][label] = [n for n in nd["file"] if nd["names"][n][0] == label]
+                nd["slots"][label] = self.read_order(nd, label)
 
     def view(self, path, pl, label):
         nd = self.nodes.get(path)
@@ -242,7 +251,7 @@ class Ref:
         nd = self.nodes.get(path)
         if nd is None:
             return []
-        return [(n, nd["names"][n][1]) for n in nd["file"] if nd["names"][n][0] == label]
+        return [(n, nd["names"][n][1]) for n in self.read_order(nd, label)]
 
     def groups(self, nonempty_only=False):
         out = []
@@ -433,44 +442,20 @@ def run_case(exe, ops, backend, fpath, compress):
 
 
 def order_by_design(ops, fails):
-    """is every failure an index difference that the by-design rule explains?  The rule, stated on the HISTORY alone:
-    since the last fresh open the group had a sibling overwritten (mode w) while it was not the last of its kind."""
+    """Are all failures index differences between the session and a fresh open that the reference PREDICTED?  class Ref
+    implements the documented order rules (a slot is re-used on overwrite, the database appends the re-created node, the
+    zones of a base are sorted by name on read); O3 has compared every view -- before and after the reopen -- with it, so
+    when only O1 'index' failures remain the difference is exactly the predicted one.  -> the finding keys, or None"""
     keys = set()
     for f in fails:
-        if f["class"] not in ("index", "order"):
+        if f["class"] != "index":
             return None
         g = f["group"]
-        if not overwritten_nonlast(ops, g):
-            return None
-        keys.add("index-after-overwrite-nonlast:" + g[2])
+        if Ref.sorted_on_read(g[1], g[2]):
+            keys.add("index-after-reopen-sorted:" + g[2])
+        else:
+            keys.add("index-after-overwrite-nonlast:" + g[2])
     return keys
-
-
-def overwritten_nonlast(ops, g):
-    """replay the history on a plain list: was a sibling of group g overwritten by delete + re-create while another sibling
-    of the group followed it in the file?"""
-    path, _, label = g
-    order, hit = [], False
-    for op in ops:
-        if op[0] == "reopen":
-            continue
-        if op[0] == "w":
-            if op[1] == path and op[3] == label:
-                if op[4] in order:
-                    if order[-1] != op[4]:
-                        hit = True
-                    order.remove(op[4])
-                order.append(op[4])
-            elif join(op[1], op[4]) == path or path.startswith(join(op[1], op[4]) + "/"):
-                order, hit = [], False          # an ancestor was re-created
-        elif op[0] == "u" and op[1] == path and op[3] == label and op[4] not in order:
-            order.append(op[4])
-        elif op[0] == "d":
-            if op[1] == path and op[3] in order:
-                order.remove(op[3])
-            elif join(op[1], op[3]) == path or path.startswith(join(op[1], op[3]) + "/"):
-                order, hit = [], False
-    return hit
 
 
 # ----------------------------------------------------------------------------------------------- the generator
@@ -981,7 +966,9 @@ def run(ck):
         fails, lines, out, outcome = probe(ops, backend, "order witness", {"group": [pl, label]})
         idx = [f for f in fails if f["class"] == "index" and f["group"] == grp]
         rest = [f for f in fails if not (f["class"] in ("index", "order") and f["group"] == grp)]
-        if idx and not rest and idx[0]["session"][0][0] == idx[0]["reopened"][-1][0]:
+        first = ops[-1][4]
+        if idx and not rest and [n for n, _ in idx[0]["reopened"]][-1] == first and [n for n, _ in idx[0]["session"]][-1] != first \
+                and not Ref.sorted_on_read(pl, label):
             by_design[label] = backend
             finding("index-after-overwrite-nonlast:" + label,
                        {"witness": "C04_order_refuted", "history": [lines_of_op(o) for o in ops], "backend": backend,
@@ -992,6 +979,24 @@ def run(ck):
         elif label == "FlowSolution_t":
             corr_broken.append({"probe": "the witness of C04_order_refuted does not diverge on the implementation", "backend": backend})
         if outcome == "ok" and not rest:
+            correspond(ops, backend, 0, lines, out)
+    # the witness of C04_zone_sort_refuted: zones / particle zones created out of name order
+    for n, label in enumerate(("Zone_t", "ParticleZone_t")):
+        ops = [("w", "/B", "CGNSBase_t", label, "Zc", 3), ("w", "/B", "CGNSBase_t", label, "Za", 4)]
+        backend = "adf" if n % 2 == 0 else "hdf5"
+        fails, lines, out, outcome = probe(ops, backend, "zone sort witness", {"label": label})
+        keys = order_by_design(ops, fails) if fails else None
+        if fails and keys == {"index-after-reopen-sorted:" + label}:
+            by_design["sorted:" + label] = backend
+            finding("index-after-reopen-sorted:" + label,
+                    {"witness": "C04_zone_sort_refuted", "history": [lines_of_op(o) for o in ops], "backend": backend,
+                     "session": fails[0]["session"], "reopened": fails[0]["reopened"],
+                     "by_design": "cgi_read_base orders the zones of a base by name"})
+        elif fails:
+            report(ops, backend, 0, fails, "probe zone sort witness")
+        else:
+            corr_broken.append({"probe": "the witness of C04_zone_sort_refuted does not diverge on the implementation", "label": label})
+        if outcome == "ok":
             correspond(ops, backend, 0, lines, out)
     ck.extra["by_design_index_difference_confirmed_for"] = sorted(by_design)
 
@@ -1071,7 +1076,7 @@ def run(ck):
     for ti, target in enumerate(targets):
         if stop:
             break
-        for rep in range(2 if big else 1):
+        for rep in range(4 if big else 1):
             backend, compress = combos[(ti + 3 * rep) % len(combos)]
             g = focused_history(ck.rng, target, allow_nonlast=(rep == 1) or (ti % 4 == 0))
             if g is None:
@@ -1085,14 +1090,14 @@ def run(ck):
                 stop = True
                 break
     # ---- (b) random whole-tree histories
-    nrand = 70 if big else 8
+    nrand = 400 if big else 14
     for j in range(nrand):
         if stop:
             break
         backend = "adf" if j % 2 == 0 else "hdf5"
         compress = [0, 1, -1][j % 3]
         g = Gen(ck.rng, big=big, allow_nonlast=(j % 2 == 0))
-        g.history(ck.rng.randint(30, 70) if big else ck.rng.randint(18, 32))
+        g.history(ck.rng.randint(30, 80) if big else ck.rng.randint(18, 36))
         dist["random"] += 1
         dist["max_groups"] = max(dist["max_groups"], len(g.ref.groups(nonempty_only=True)))
         for k, v in g.touched.items():
